@@ -957,10 +957,12 @@ def case_from_lists(ctx, s: Subject):
             bounds = [0] + cuts + [n]
             la = pa.chunked_array([la.slice(a, b - a) for a, b in zip(bounds, bounds[1:])], type=la.type)
         d[nm] = pd.Series(la, dtype=pd.ArrowDtype(la.type))
-    df = NestedFrame(d)
+    which = rng.choice(["from_lists", "nest_lists"])
+    # `from_lists` takes "pd.DataFrame or NestedFrame": a plain DataFrame every other time
+    plain = which == "from_lists" and rng.random() < 0.5
+    df = pd.DataFrame(d) if plain else NestedFrame(d)
     df.index = pd.Index(labels)
     names = [nm for nm, _ in s.ty]
-    which = rng.choice(["from_lists", "nest_lists"])
 
     def run():
         if which == "from_lists":
@@ -976,7 +978,8 @@ def case_from_lists(ctx, s: Subject):
         lists_json.append([nm, t, [export.export_list(ch, t) for ch in col.iterchunks()]])
     ans = ctx.driver.call("frame.fromLists", index=labels, base=[["id", "int64", list(range(n))]], lists=lists_json, name="n")
     ctx.case(which, {**s.desc(), "labels": labels, "chunked": chunked}, real, norm_frame(ans["model"]), {"ok": exp}, hyp=s.hyp,
-             features=(which, f"dup={len(set(map(str, labels))) < n}", f"chunked={chunked}"), nontrivial=s.nontrivial())
+             features=(which, f"dup={len(set(map(str, labels))) < n}", f"chunked={chunked}", f"plain={plain}"),
+             nontrivial=s.nontrivial())
 
 
 def case_from_lists_empty(ctx):
